@@ -1143,6 +1143,9 @@ func (c *DefaultCtx) Path(override ...string) string {
 
 		// Set new path to request context
 		c.fasthttp.Request.URI().SetPath(c.pathOriginal)
+		// the strings Path and Params have returned so far are views of the current buffer and stay
+		// valid until the handler returns: the new path is built in a buffer of its own
+		c.path = make([]byte, 0, len(c.pathOriginal))
 		// Prettify path
 		c.configDependentPaths()
 		// the scan cursor indexes the bucket of the old path
